@@ -86,7 +86,17 @@ class Target(object):
                 return r
             return {0: None, 1: 0, 2: '', 3: False}.get(h, r)
         self.ns = {'__name__': '__kvprobe__', '_LOG': [], '_SEEN': [], '_D': D, '_FALSY': _falsy}
-        if kind == 'sibling':
+        if kind in ('bound', 'boundcls'):
+            # a method object that is already bound when it is decorated: lru_cache(...)(obj.m) / (Cls.cm)
+            src = ('class C(object):\n'
+                   '%s'
+                   '    def m(%s):\n'
+                   '        _LOG.append(1); _SEEN.append(%s)\n'
+                   '        return %s\n' % ('    @classmethod\n' if kind == 'boundcls' else '', spec_src(spec, True), seen, ret))
+            exec(src, self.ns)
+            self.inst = None
+            self.plain = self.ns['C'].m if kind == 'boundcls' else self.ns['C']().m
+        elif kind == 'sibling':
             # two functions made by one factory: the same code object, different default values. The elder one
             # is used through klepto first (see use_elder); the function under test is the younger one.
             src = ('def MAKE(_D):\n'
@@ -473,7 +483,7 @@ def gen_partial(rng, spec, pool):
 # one case = one (callable, keymap, options) cell with a batch of related call pairs
 
 def gen_case(rng, prop):
-    kind = rng.choice(['func', 'func', 'func', 'method', 'partial', 'sibling'])
+    kind = rng.choice(['func', 'func', 'func', 'method', 'partial', 'sibling', 'bound', 'boundcls'])
     if prop == 'C12':
         kind = rng.choice(['func', 'func', 'method'])
     spec = gen_spec(rng)
@@ -574,6 +584,22 @@ def run_case(case, prop):
         tgt.use_elder(make_deco(case), make_keygen(case))
         f = tgt.decorate(make_deco(case))
         kg = make_keygen(case)(tgt.plain)
+        if rng.random() < 0.5:
+            # an unrelated decorator / key generator with *other* settings created afterwards: what one instance was
+            # configured with must not leak into another (state kept in module globals or shared closures)
+            other = dict(case)
+            other['tol'] = {None: 0, 0: None}.get(case.get('tol'), None if rng.random() < 0.5 else 0)
+            other['deep'] = not case.get('deep')
+            other['ignore'] = None
+            km2 = dict(case['keymap']); km2['typed'] = not km2['typed']
+            other['keymap'] = km2
+            bystander = make_deco(other)(lambda *a, **k: None)
+            make_keygen(other)(lambda *a, **k: None)
+            try:
+                bystander(1.26, x=[2.51])
+            except Exception:
+                pass
+            J.note('bystander_decorators')
     except Exception as e:
         J.bad(prop, 'decorating-failed', '%s: %s' % (type(e).__name__, str(e)[:200]))
         return J
